@@ -44,6 +44,12 @@ fn template(v: (u64, u64, u64), spelling: &str, placement: &str, using_level: u8
     for n in [0usize, 1, 31, 32, 33, 64] {
         s.push_str(&format!("require ( a > 0 , \"{}\" ) ;\n", "m".repeat(n)));
     }
+    // non-ASCII messages: 30 ASCII + one 2-byte character = 32 bytes / 31 characters; 16 three-byte characters = 48 bytes;
+    // 10 three-byte characters = 30 bytes / 10 characters; 31 ASCII + nothing
+    s.push_str(&format!("require ( a > 0 , \"{}{}\" ) ;\n", "m".repeat(30), '\u{e9}'));
+    s.push_str(&format!("require ( a > 0 , unicode\"{}\" ) ;\n", "\u{4e16}".repeat(16)));
+    s.push_str(&format!("require ( a > 0 , unicode\"{}\" ) ;\n", "\u{4e16}".repeat(10)));
+    s.push_str(&format!("require ( a > 0 , \"{}{}\" ) ;\n", "m".repeat(29), '\u{e9}'));
     s.push_str("require ( a > 0 , b ) ;\n");
     s.push_str("require ( a > 0 ) ;\n");
     s.push_str("require ( \"thirty-two-bytes-or-more-as-the-only-argument\" ) ;\n");
